@@ -28,7 +28,7 @@ N(v) == IF v = 1
               stamp |-> "2020-01-01T00:00:00+01:00 "]
         ELSE [a |-> "p", b |-> "q", s1 |-> "ww", s2 |-> "vv", k |-> "j", ref |-> "r1", dis |-> "lbl",
               xt |-> "Shade", xa |-> "cdef", num |-> "9", unit |-> "m", one |-> "2",
-              stamp |-> "2021-06-15T12:30:00Z "]
+              stamp |-> "2021-06-15T12:30:00+02:00 "]
 
 \* two benign payloads per position: <<payload, second payload (xstr_both only)>>
 Benign(pos, v) ==
@@ -38,12 +38,28 @@ Benign(pos, v) ==
       [] pos = "ref_display"  -> IF v = 1 THEN <<"Abc def", "">> ELSE <<"x", "">>
       [] pos = "xstr_type"    -> IF v = 1 THEN <<"Color", "">> ELSE <<"Shade", "">>
       [] pos = "xstr_payload" -> IF v = 1 THEN <<"red", "">> ELSE <<"dark blue", "">>
-      [] pos = "xstr_both"    -> IF v = 1 THEN <<"Color", "red">> ELSE <<"Shade", "dark blue">>
+      [] pos = "xstr_both"    -> IF v = 1 THEN <<"Color", "crimson">> ELSE <<"Shade", "navy">>
       [] pos = "bin"          -> IF v = 1 THEN <<"text/plain", "">> ELSE <<"image/png", "">>
       [] pos = "unit"         -> IF v = 1 THEN <<"kW", "">> ELSE <<"m", "">>
       [] pos = "number_text"  -> IF v = 1 THEN <<"42", "">> ELSE <<"7.5", "">>
       [] pos = "tz_name"      -> IF v = 1 THEN <<"Paris", "">> ELSE <<"London", "">>
       [] pos \in {"tag", "path_segment"} -> IF v = 1 THEN <<"abc", "">> ELSE <<"siteRef", "">>
+
+\* the benign payloads of the payload groups (other strings, so that no judged text occurs twice:
+\* a repeated text would be a cache hit and would show no generated code)
+BenignP(pos, v) ==
+    CASE pos = "str"          -> IF v = 1 THEN <<"abd", "">> ELSE <<"x y", "">>
+      [] pos = "uri"          -> IF v = 1 THEN <<"http://h/c?d=1", "">> ELSE <<"urn:y", "">>
+      [] pos = "ref_name"     -> IF v = 1 THEN <<"abd", "">> ELSE <<"p2.q-3", "">>
+      [] pos = "ref_display"  -> IF v = 1 THEN <<"Abd efg", "">> ELSE <<"y", "">>
+      [] pos = "xstr_type"    -> IF v = 1 THEN <<"Colour", "">> ELSE <<"Tint", "">>
+      [] pos = "xstr_payload" -> IF v = 1 THEN <<"green", "">> ELSE <<"light blue", "">>
+      [] pos = "xstr_both"    -> IF v = 1 THEN <<"Colour", "green">> ELSE <<"Tint", "light blue">>
+      [] pos = "bin"          -> IF v = 1 THEN <<"text/html", "">> ELSE <<"image/jpeg", "">>
+      [] pos = "unit"         -> IF v = 1 THEN <<"kWh", "">> ELSE <<"ft", "">>
+      [] pos = "number_text"  -> IF v = 1 THEN <<"43", "">> ELSE <<"8.25", "">>
+      [] pos = "tz_name"      -> IF v = 1 THEN <<"Berlin", "">> ELSE <<"New_York", "">>
+      [] pos \in {"tag", "path_segment"} -> IF v = 1 THEN <<"abd", "">> ELSE <<"equipRef", "">>
 
 \* text before / between / after the payload inside the literal
 LitPre(k, pos, n) ==
@@ -71,8 +87,8 @@ LitSuf(k, pos, n) ==
 \* literals without a payload position
 PlainLit(k, v) ==
     CASE k = "date"   -> IF v = 1 THEN "2020-01-01" ELSE "2021-06-15"
-      [] k = "time"   -> IF v = 1 THEN "12:00:00" ELSE "08:30:15"
-      [] k = "dtz"    -> IF v = 1 THEN "2020-01-01T00:00:00Z" ELSE "2021-06-15T12:30:00+02:00"
+      [] k = "time"   -> IF v = 1 THEN "12:10:05" ELSE "08:30:15"
+      [] k = "dtz"    -> IF v = 1 THEN "2020-01-01T10:20:30+01:00" ELSE "2021-06-15T12:30:45+02:00"
       [] k = "coord"  -> IF v = 1 THEN "C(1.5,2.5)" ELSE "C(-3.0,4.25)"
       [] k = "bool"   -> IF v = 1 THEN "true" ELSE "false"
       [] k = "null"   -> "N"
@@ -223,7 +239,7 @@ Lines(f) ==
          \cup (IF f.pos = "none" THEN {}
                ELSE {[g |-> "payload", ctx |-> f.ctx, atom |-> f.atom, kind |-> f.kind, pos |-> f.pos, cls |-> c,
                       modes |-> ModesAt(f.pos, c), pre |-> Pre(f, 1), mid |-> LitMid(f.kind, f.pos), suf |-> Suf(f, 1),
-                      b1 |-> Benign(f.pos, 1), b2 |-> Benign(f.pos, 2)] : c \in ClassesAt(f.pos)})
+                      b1 |-> BenignP(f.pos, 1), b2 |-> BenignP(f.pos, 2)] : c \in ClassesAt(f.pos)})
 
 GenInit == /\ Init
            /\ InTier(flt)
